@@ -2124,11 +2124,13 @@ class GcpSetup(Family):
     """`fg_setup.setup(objective, data, parameter)` directly and through `gcp_opt`: every objective x dense (float
     and integer arrays) / sparse (stored order shuffled) / no data x admissible and inadmissible data classes.  An
     admissible request is answered with the loss's lower bound, an inadmissible one refused; implementation ==
-    Lean model (`setupS`) == specification (plain rational arithmetic on ALL entries of the tensor)."""
+    Lean model (`setupS`) == specification (plain rational arithmetic on ALL entries of the tensor).  In particular a
+    dense non-negative tensor with exact zeros MUST be accepted by the four non-negative losses (083ca8e) and a tensor
+    with a negative integer MUST be refused by the Poisson losses (18649ab), in both representations."""
     name = "gcp_setup"
     theorems = ("C13_setup_table", "C13_setup_binary_dense", "C13_setup_binary_sparse", "C13_setup_natural_dense",
                 "C13_setup_natural_sparse", "C13_setup_nonneg_dense", "C13_setup_nonneg_sparse",
-                "C13_setup_nonneg_dense_zero_counterexample", "C13_setup_natural_negative_counterexample")
+                "C13_setup_nonneg_dense_zero_pinned_counterexample", "C13_setup_natural_negative_pinned_counterexample")
 
     def gen(self, rng, tier):
         out = []
@@ -2241,10 +2243,12 @@ class GcpSetup(Family):
         if impl_ok != spec_ok:
             xs = [Fraction(x) for x in c["entries"]]
             if dom == "nonneg" and c["rep"] == "dense" and not impl_ok and data_ok and min(xs) == 0:
-                what = ("setup-nonneg-dense-zero: a dense NON-NEGATIVE tensor with an exact zero is refused "
-                        f"('{impl.get('msg')}'): {what_data}")
+                # the defect fixed by 083ca8e: asserted, no longer a listed finding
+                what = ("a dense NON-NEGATIVE tensor with an exact zero is refused "
+                        f"('{impl.get('msg')}'; its sparse form is accepted): {what_data}")
             elif dom == "natural" and impl_ok and all(x.denominator == 1 for x in xs) and min(xs) < 0:
-                what = f"setup-natural-negative: a tensor with a negative entry is accepted as a count tensor: {what_data}"
+                # the defect fixed by 18649ab
+                what = f"a tensor with a negative entry is accepted as a count tensor: {what_data}"
             elif spec_ok:
                 what = f"an admissible request is refused ({impl.get('exc')}: {impl.get('msg')}): {what_data}"
             else:
